@@ -12,7 +12,13 @@ import (
 )
 
 func init() {
-	core.Register(core.Check{ID: "C10", Level: "exploration", Run: func(c *core.Ctx) { runC10(c); historyPass(c, "C10"); reentrancyPass(c, "C10"); arch386Pass(c, "C10") }})
+	core.Register(core.Check{ID: "C10", Level: "exploration", Run: func(c *core.Ctx) {
+		waitArch := background(func() { arch386Pass(c, "C10") })
+		runC10(c)
+		historyPass(c, "C10")
+		reentrancyPass(c, "C10")
+		waitArch()
+	}})
 }
 
 // refParsePath follows C10's grammar literally. dontCare marks the single string the statement leaves open ("m/").
